@@ -242,11 +242,11 @@ struct Cmp<T> {
             if (sgnbit(ct) == sgnbit(rt)) { return nullptr; }
             return sgnbit(ct) ? "sign-of-zero:ct=-0,rt=+0" : "sign-of-zero:ct=+0,rt=-0";
         }
-        if (isinf_(ct)) { return "ct:inf-for-finite"; }
-        if (isinf_(rt)) { return "ct:finite-for-inf"; }
+        if (ct == -rt) { return "sign-flipped"; }
+        if (isinf_(ct) && !isinf_(rt)) { return "ct:inf-for-finite"; }
+        if (isinf_(rt) && !isinf_(ct)) { return "ct:finite-for-inf"; }
         if (arg0 != nullptr && same_fp(ct, *arg0)) { return "ct:returns-argument"; }
         if (arg0 != nullptr && same_fp(rt, *arg0)) { return "rt:returns-argument"; }
-        if (ct == -rt) { return "sign-flipped"; }
         if (ct - rt == T(1)) { return "ct=rt+1"; }
         if (ct - rt == T(-1)) { return "ct=rt-1"; }
         if (ct == T(0)) { return "ct:zero-for-value"; }
@@ -363,13 +363,22 @@ inline TwinStats run_twin(char const* subject)
         vf::crumb(subject, "consteval-vs-runtime", sit, "%s", as.c_str());
         auto const larg = launder(arg);
         R const rt      = F{}(larg);
-        vf::cover(subject, Cls::hash(arg), true);
         if (!TW::ct[i].ok) {
+            // [library.c]/3 (C++23 constexpr <cmath>): a call that would raise a floating-point exception other
+            // than FE_INEXACT (overflow, invalid, division by zero) is not required to be a constant expression
+            if constexpr (requires { F::raises_fp_exception(arg); }) {
+                if (F::raises_fp_exception(arg)) {
+                    ++st.skipped;
+                    continue;
+                }
+            }
             ++st.not_ce;
+            vf::cover(subject, Cls::hash(arg), true);
             vf::diverge("not-constant-evaluable", "constant evaluation fails; run time returns " + Cmp<R>::show(rt),
                 "a constant expression");
             continue;
         }
+        vf::cover(subject, Cls::hash(arg), true);
         ++st.compared;
         R const ct = TW::ct[i].v;
         R const* a0 = nullptr;
